@@ -370,7 +370,7 @@ func init() {
 		r.Register(fixedFn(f6, operated.Get6spatialIdsAdjacentToFaces), fixedFn(f8, operated.Get8spatialIdsAroundHorizontal),
 			fixedFn(f26, operated.Get26spatialIdsAroundVoxel), fnN(),
 			symFn("Sym6", operated.Get6spatialIdsAdjacentToFaces), symFn("Sym8", operated.Get8spatialIdsAroundHorizontal),
-			symFn("Sym26", operated.Get26spatialIdsAroundVoxel), fnSymN())
+			symFn("Sym26", operated.Get26spatialIdsAroundVoxel), fnSymN(), fnHistory())
 		if n == 0 {
 			return
 		}
@@ -403,12 +403,17 @@ func init() {
 		for _, l := range [][]string{{"3/7/7/3/0", "3/0/7/3/0"}, {"3/0/7/3/0", "3/7/7/3/0"}, {"3/7/7/3/0"}, {"3/7/7/3/0", "3/0/7/3/0", "3/7/7/3/0"}} {
 			runN(r, l, 1, 1, 3, []string{"fixed-sequence", "consecutive"}, false)
 		}
+		fixedHistories(r)
 		if g.Tier == "thorough" {
 			sweep(r)
 		}
 		for i := 0; i < n && !r.Stopped(); i++ {
 			kind := g.Intn(100)
 			switch {
+			case kind >= 3 && kind < 15:
+				// a whole history of related calls in one case (see history.go)
+				steps, tags := genHistory(g)
+				runHistory(r, steps, tags)
 			case kind < 3:
 				// related consecutive calls, back to back (state carried from one call into the next would show here)
 				l, lk := genList(g)
